@@ -336,7 +336,7 @@ func runOnce(c ccase) (res batch.Result, stalled bool) {
 		return x.s.State()
 	}
 	outcome := fmt.Sprintf("1:%s 2:%s", state(cs['1']), state(cs['2']))
-	res.Nontrivial = append(res.Nontrivial, fmt.Sprintf("%s|%s|%s|%v|%s", c.Mode, kind, c.IDs, c.Order, outcome))
+	res.Nontrivial = append(res.Nontrivial, fmt.Sprintf("%s|%s|%s|%v|%v|%s", c.Mode, kind, c.IDs, c.Order, c.Unsynced, outcome))
 	res.Seen("outcomes", fmt.Sprintf("%s %s", c.Mode, outcome))
 	if decided {
 		res.Count("scenarios_with_collision", 1)
